@@ -13,7 +13,8 @@ RULE = ('generated object classes (type()/exec): 1-3 interfaces declared on a ba
         '1-6 calls per case, reference-encoded then parsed by parseMessage (flags included) and handed to '
         'DBusObjectHandler.handleMethodCallMessage on a recording connection: right/wrong path, interface right / absent / '
         'other / unknown, member right / unknown, signature right / wrong, reply expected or not, sender present or not, '
-        'built-ins Ping / Introspect / GetManagedObjects; scripted outcome: value, tuple, list, None, Deferred fired or '
+        'built-ins Ping / Introspect / GetManagedObjects, user methods that reuse the names Ping / Introspect and calls to '
+        'those names without interface; scripted outcome: value, tuple, list, None, Deferred fired or '
         'failed later by the harness, exception (plain, valid / invalid dbusErrorName, non-ASCII class name; plain, '
         'unicode, NUL or lone-surrogate text), value of the wrong type or arity. oracle: number of replies (0 before a '
         'Deferred fires, then 1; none for a dispatched no-reply call), reply_serial, destination, strict reference decode, '
@@ -27,7 +28,7 @@ ASSUMPTIONS = ['a call without interface may run any implementation bound to tha
                'a no-reply call that fails its lookup may or may not be answered (at most one reply)']
 
 IFACE_NAMES = ['org.verif.Alpha', 'org.verif.Beta', 'org.verif.Gamma']
-MEMBERS = ['Ma', 'Mb', 'Mc', 'Md']
+MEMBERS = ['Ma', 'Mb', 'Mc', 'Md', 'Ping', 'Introspect']     # user methods may reuse the names of the standard ones
 SENDER = ':1.99'
 
 
@@ -446,7 +447,7 @@ def gen_case(draw, tier):
         i = draw(st.sampled_from(ifaces))
         m = draw(st.sampled_from(i['methods']))
         mode = draw(st.sampled_from(['ok', 'ok', 'ok', 'ok', 'wrong-path', 'no-iface', 'other-iface', 'unknown-iface',
-                                     'unknown-member', 'wrong-sig', 'ping', 'introspect', 'managed']))
+                                     'unknown-member', 'wrong-sig', 'ping', 'introspect', 'managed', 'std-name-no-iface']))
         call = {'path': path, 'iface': i['name'], 'member': m['name'], 'sig': m['in'], 'no_reply': draw(st.booleans()),
                 'sender': draw(st.integers(0, 4)) != 0, 'little': draw(st.booleans())}
         if mode == 'wrong-path':
@@ -468,6 +469,13 @@ def gen_case(draw, tier):
             call.update(iface='org.freedesktop.DBus.Introspectable', member='Introspect', sig='')
         elif mode == 'managed':
             call.update(iface='org.freedesktop.DBus.ObjectManager', member='GetManagedObjects', sig='')
+        elif mode == 'std-name-no-iface':
+            # a standard member name without the interface that makes it the standard member: whatever the object
+            # itself binds to that name (or nothing) must answer
+            name = draw(st.sampled_from(['Ping', 'Introspect']))
+            own = [mm for ii in ifaces for mm in ii['methods'] if mm['name'] == name]
+            call.update(iface=None, member=name, sig=draw(st.sampled_from([own[0]['in']] if own else ['', 's'])))
+            call['path'] = draw(st.sampled_from([path, path, '/nope']))
         call['trees'] = [draw(S.tree_for(t, 2)) for t in R.split_inner(call['sig'])]
         # outcome, in terms of the method that will run (if any)
         target = None
